@@ -546,3 +546,28 @@ def wsgi_thread_pairs(r, label, app, requests, pairs, files, bound=1, sig_prefix
                             f"{label}: requests '{a}' and '{b}' in two threads on one app object, schedule {x.obs['trace'][-12:]}: got {res!r:.220}, alone {[solo[a], solo[b]]!r:.220}")
         dfs(lambda prefix: VT.run_thread_pair(prefix, jobs, files), on_exec, bound=bound)
         r.count("distinct_nontrivial")
+
+
+def asgi_task_pairs(r, label, app, requests, pairs, bound=2, sig_prefix="tasks"):
+    """Two ASGI requests on one application object as two tasks on one loop; every receive() and send() is an event, all schedules
+    with <= bound deviations from the default order. Each request must get exactly what it gets alone. requests: {name: AReq}."""
+    from .explore import dfs
+
+    def obs(res):
+        return (res.status, res.header_multiset(), res.body, type(res.exc).__name__ if res.exc else None)
+
+    solo = {k: obs(run_asgi(app, to_scope(q), to_messages(q))) for k, q in requests.items()}
+    for a, b in pairs:
+        def run(prefix, a=a, b=b):
+            return run_asgi_pair(prefix, app, [to_scope(requests[a]), to_scope(requests[b])], [to_messages(requests[a]), to_messages(requests[b])])
+
+        def on_exec(x, a=a, b=b):
+            r.count("evaluations")
+            r.count("traces")
+            r.count("transitions", len(x.choices))
+            res = [obs(y) for y in x.obs]
+            if any(y.stuck for y in x.obs) or res != [solo[a], solo[b]]:
+                r.violation(f"{sig_prefix}:{label}", {"tasks": label, "a": a, "b": b, "schedule": list(x.choices)},
+                            f"{label}: ASGI requests '{a}' and '{b}' as two tasks on one app object, schedule {x.choices}: got {res!r:.220}, alone {[solo[a], solo[b]]!r:.220}")
+        dfs(run, on_exec, bound=bound)
+        r.count("distinct_nontrivial")
